@@ -3786,12 +3786,48 @@ seq_t dtw_warping_path_ndim(seq_t *from_s, idx_t from_l, seq_t* to_s, idx_t to_l
     seq_t *wps = (seq_t *)malloc(wps_length * sizeof(seq_t));
     seq_t d;
     if (settings->inner_dist == 1) {
-        d = dtw_warping_paths_ndim_euclidean(wps, from_s, from_l, to_s, to_l, true, true, true,                        ndim, settings);
+        d = dtw_warping_paths_ndim_euclidean(wps, from_s, from_l, to_s, to_l, true, true, false,                        ndim, settings);
     } else {
-        d = dtw_warping_paths_ndim(wps, from_s, from_l, to_s, to_l, true, true, true,                        ndim, settings);
+        d = dtw_warping_paths_ndim(wps, from_s, from_l, to_s, to_l, true, true, false,                        ndim, settings);
         d = sqrt(d);
     }
-    *length_i = dtw_best_path(wps, from_i, to_i, from_l, to_l, settings);
+    // Start the path in the cell that is selected by the psi-relaxation at the end of the series
+    idx_t rs = from_l;
+    idx_t cs = to_l;
+    if (settings->psi_1e != 0 || settings->psi_2e != 0) {
+        DTWWps p = dtw_wps_parts(from_l, to_l, settings);
+        // Only cells inside the window are candidates
+        idx_t min_rci = MAX(0, MIN(from_l, to_l) - p.window);
+        seq_t mir_value = INFINITY;
+        seq_t mic_value = INFINITY;
+        idx_t mir = from_l;
+        idx_t mic = to_l;
+        seq_t v;
+        if (settings->psi_1e != 0) {
+            for (idx_t ri=from_l; ri>=1 && ri>from_l-settings->psi_1e-1 && ri-1>=min_rci; ri--) {
+                v = wps[dtw_wps_loc(&p, ri, to_l, from_l, to_l)];
+                if (v < mir_value) {
+                    mir_value = v;
+                    mir = ri;
+                }
+            }
+        }
+        if (settings->psi_2e != 0) {
+            for (idx_t ci=to_l; ci>=1 && ci>to_l-settings->psi_2e-1 && ci-1>=min_rci; ci--) {
+                v = wps[dtw_wps_loc(&p, from_l, ci, from_l, to_l)];
+                if (v < mic_value) {
+                    mic_value = v;
+                    mic = ci;
+                }
+            }
+        }
+        if (mir_value < mic_value) {
+            rs = mir;
+        } else {
+            cs = mic;
+        }
+    }
+    *length_i = dtw_best_path_customstart(wps, from_i, to_i, from_l, to_l, rs, cs, settings);
     free(wps);
     return d;
 }
